@@ -80,6 +80,9 @@ READ_INV = ["DeadlockFree", "DeliveredIsPrefix", "NullIsLast", "EofOnlyAfterLast
 WRITE_INV = ["DeadlockFree", "FileOutUnique", "NoOversize", "StatsExact", "AllDeleted", "QueueBounded", "HeldBounded"]
 
 
+name_module = {}
+
+
 def _cfg(name, spec, invariants, props, edge):
     p = os.path.join(vlib.WORK, "cfg", name + ".cfg")
     os.makedirs(os.path.dirname(p), exist_ok=True)
@@ -90,6 +93,8 @@ def _cfg(name, spec, invariants, props, edge):
         if props:
             f.write("PROPERTIES %s\n" % " ".join(props))
         f.write("VIEW View\n")
+        if spec in ("Spec", "FairSpec") and "ReadSession" in name_module.get(name, ""):
+            f.write("CONSTRAINT BoundDelivery\n")
         if edge:
             f.write("ACTION_CONSTRAINT EdgeLog\nCONSTRAINT InitLog\n")
         f.write("CHECK_DEADLOCK FALSE\n")
@@ -129,6 +134,8 @@ def model_and_replay(rep, kind, scs, tag, invariants, liveness=True, variant="sc
     exe, scen, descs = prepare(kind, scs, tag, variant)
     recs = ",\n".join(S.tla(d) for d in descs)
     mc = vlib.write_mc("MC_" + tag, module, "MCConfigs == {%s}" % recs)
+    name_module[tag] = module
+    name_module[tag + "_live"] = module
     # 1. safety, all interleavings, with the edge log
     res = vlib.run_tlc(mc, _cfg(tag, "Spec", invariants, [], True), tag, workers=16, timeout=timeout, heap="16g")
     rep.add_tlc(res)
